@@ -260,13 +260,58 @@ def _known_divergent_opcodes() -> set:
     return ops
 
 
+def lockstep(case: Dict[str, Any]) -> Tuple[List[Violation], int]:
+    """Run case["steps"] instructions on both cores from the same state and compare after every step; stops at
+    the first divergence (afterwards the states differ). Returns (violations, number of agreeing steps)."""
+    rust = rsclient.shared()
+    rs = rust.cpu_batch([dict(case, want_reads=True)])[0]
+    py = pycore.run_case(case, want_reads=True)
+    init = pycore.HashMemory(case["seed"], {pycore.canon(a): v for a, v in case["mem"]})
+    regs_prev = dict(case["regs"])
+    steps_ok = 0
+    for k, ps in enumerate(py["steps"]):
+        if k >= len(rs.get("steps", [])):
+            break
+        rss = rs["steps"][k]
+        if "err" in ps:
+            break
+        code_k = bytes(init.peek(ps["pc"] + j) for j in range(8))
+        ln = G.info_len(code_k + G.NOP_PAD)
+        mn, _ = describe(code_k[:ln] if ln else code_k)
+        pre = code_k[0] if code_k[0] in G.PRE_OPCODES else None
+        op = code_k[1] if pre is not None else code_k[0]
+        sub_case = dict(case)
+        sub_case["steps"] = k + 1
+        vs = compare_step(sub_case, ps, rss, init, where_of(pre, op, mn), regs_prev)
+        if vs:
+            for v in vs:
+                v.detail = f"lockstep step {k}: " + v.detail
+            return vs, steps_ok
+        for a, val in ps.get("writes", []):
+            init.over[a] = val
+        regs_prev = dict(ps["regs"])
+        steps_ok += 1
+    return [], steps_ok
+
+
+def _record_program(rep: Report, case: Dict[str, Any], kind: str, sample: bool) -> None:
+    vs, steps_ok = lockstep(case)
+    for v in vs:
+        rep.violate(v)
+    rep.labels[f"{kind}_steps_ok:{min(steps_ok // 10 * 10, 40)}+"] += 1
+    rep.extra["lockstep_steps"] = rep.extra.get("lockstep_steps", 0) + steps_ok
+    code = S.code_of(case, 24)
+    rep.case(f"prog:{jhash([case['regs']['PC'], code.hex(), case['seed']])}" if steps_ok >= 3 else None,
+             [f"kind:{kind}", f"{kind}:diverged" if vs else f"{kind}:agreed"],
+             {"kind": kind, "pc": case["regs"]["PC"], "code_at_pc": code.hex(), "steps_compared": steps_ok} if sample else None)
+
+
 def _program_shard(task: Tuple[int, int, str, int]) -> Report:
     shard, seed, tier, nprog = task
     rep = Report()
-    rust = rsclient.shared()
     excluded = _known_divergent_opcodes() | CONTROL_FLOW
     ops = [o for o in range(256) if not G.is_pre(o) and o not in excluded]
-    rep.extra["lockstep_opcodes_excluded"] = len(excluded)
+    rep.extra["lockstep_opcodes_excluded"] = len(excluded) if shard == 0 else 0
     for pi in range(nprog):
         st = S.Stream(seed, 0x10C, shard, pi)
         n = 5 + st.below(36)
@@ -280,43 +325,91 @@ def _program_shard(task: Tuple[int, int, str, int]) -> Report:
         case, labels = S.gen_state(st, code, "", imax=6, pad=bytes(16))
         case["regs"]["I"] = 1 + st.below(6)  # counted instructions inside programs stay short
         case["steps"] = len(encs)
-        rs = rust.cpu_batch([dict(case, want_reads=True)])[0]
-        py = pycore.run_case(case, want_reads=True)
-        init = pycore.HashMemory(case["seed"], {pycore.canon(a): v for a, v in case["mem"]})
-        regs_prev = dict(case["regs"])
-        steps_ok = 0
-        diverged = False
-        for k, ps in enumerate(py["steps"]):
-            if k >= len(rs.get("steps", [])):
-                break
-            rss = rs["steps"][k]
-            if "err" in ps:
-                break
-            code_k = bytes(init.peek(ps["pc"] + j) for j in range(8))
-            ln = G.info_len(code_k + G.NOP_PAD)
-            mn, _ = describe(code_k[:ln] if ln else code_k)
-            pre = code_k[0] if code_k[0] in G.PRE_OPCODES else None
-            op = code_k[1] if pre is not None else code_k[0]
-            sub_case = dict(case)
-            sub_case["steps"] = k + 1
-            vs = compare_step(sub_case, ps, rss, init, where_of(pre, op, mn), regs_prev)
-            if vs:
-                for v in vs:
-                    v.subcheck = v.subcheck
-                    v.detail = f"lockstep step {k}: " + v.detail
-                    rep.violate(v)
-                diverged = True
-                break
-            for a, val in ps.get("writes", []):
-                init.over[a] = val
-            regs_prev = dict(ps["regs"])
-            steps_ok += 1
-        rep.labels[f"lockstep_steps_ok:{min(steps_ok // 10 * 10, 40)}+"] += 1
-        rep.extra["lockstep_steps"] = rep.extra.get("lockstep_steps", 0) + steps_ok
-        rep.case(f"prog:{jhash(code.hex())}" if steps_ok >= 3 else None,
-                 ["kind:lockstep", "lockstep:diverged" if diverged else "lockstep:agreed"],
-                 {"program": code.hex(), "steps_compared": steps_ok} if pi % 97 == 0 else None)
+        _record_program(rep, case, "lockstep", pi % 97 == 0)
+    # control-flow skeletons: calls, far jumps and returns across 64 KiB pages
+    for pi in range(nprog):
+        st = S.Stream(seed, 0xCF10, shard, pi)
+        case = skeleton_program(st)
+        _record_program(rep, case, "skeleton", pi % 53 == 0)
     return rep
+
+
+# Hand-encoded control-flow templates (checked against the repository's decoder in _check_templates()).
+def _t_call(t: int) -> bytes: return bytes([0x04, t & 0xFF, (t >> 8) & 0xFF])
+def _t_callf(t: int) -> bytes: return bytes([0x05, t & 0xFF, (t >> 8) & 0xFF, (t >> 16) & 0x0F])
+def _t_jp(t: int) -> bytes: return bytes([0x02, t & 0xFF, (t >> 8) & 0xFF])
+def _t_jpf(t: int) -> bytes: return bytes([0x03, t & 0xFF, (t >> 8) & 0xFF, (t >> 16) & 0x0F])
+_T_RET, _T_RETF, _T_NOP = bytes([0x06]), bytes([0x07]), bytes([0x00])
+FILLERS = (bytes([0x08, 0x5A]), bytes([0x40, 0x01]), bytes([0x0A, 0x34, 0x12]), bytes([0x00]),
+           bytes([0x6C, 0x04]), bytes([0x64, 0x0F]), bytes([0x0C, 0x78, 0x56, 0x03]))  # MV A,n / ADD A,n / MV BA,mn / NOP / INC X / TEST A,n / MV X,lmn
+_templates_checked = False
+
+
+def _check_templates() -> None:
+    global _templates_checked
+    if _templates_checked:
+        return
+    want = [(_t_call(0x1234), "CALL"), (_t_callf(0x12345), "CALLF"), (_t_jp(0x1234), "JP"), (_t_jpf(0x12345), "JPF"),
+            (_T_RET, "RET"), (_T_RETF, "RETF"), (_T_NOP, "NOP"), (FILLERS[0], "MV"), (FILLERS[1], "ADD"),
+            (FILLERS[2], "MV"), (FILLERS[4], "INC"), (FILLERS[5], "TEST"), (FILLERS[6], "MV")]
+    for code, mn in want:
+        r = TP.tokens(code + G.NOP_PAD)
+        if r is None or TP.mnemonic(r[0]) != mn or r[1] != len(code):
+            raise HarnessError(f"control-flow template {code.hex()} does not decode as {mn}: {r}")
+    _templates_checked = True
+
+
+def skeleton_program(st: S.Stream) -> Dict[str, Any]:
+    """main (page A): fillers, CALL/CALLF sub, fillers.  sub: fillers, then either RET/RETF directly or a far/near
+    jump to a tail block in another (or the same) page which returns.  The path length is known, so exactly the
+    planned number of steps is compared."""
+    _check_templates()
+    pages = [0x10000 * (1 + st.below(13)) for _ in range(3)]
+    if st.chance(1, 3):
+        pages[1] = pages[0]
+    if st.chance(1, 3):
+        pages[2] = pages[0]
+    offs = [0x0200 + st.below(0xF000) & 0xFFF0 for _ in range(3)]
+    # keep blocks apart when they share a page
+    offs[1] = (offs[0] + 0x0400 + st.below(0x3000)) & 0xFFF0 if pages[1] == pages[0] else offs[1]
+    offs[2] = (offs[1] + 0x0400 + st.below(0x3000)) & 0xFFF0 if pages[2] in (pages[0], pages[1]) else offs[2]
+    main, sub, tail = (pages[0] | offs[0]) & 0xFFFFF, (pages[1] | offs[1]) & 0xFFFFF, (pages[2] | offs[2]) & 0xFFFFF
+    far_call = st.chance(1, 2) or (pages[1] != pages[0])
+
+    def fill(n: int) -> List[bytes]:
+        return [FILLERS[st.below(len(FILLERS))] for _ in range(n)]
+
+    mem: List[List[int]] = []
+    steps = 0
+
+    def place(addr: int, chunks: List[bytes]) -> int:
+        for c in chunks:
+            for b in c:
+                mem.append([addr & 0xFFFFF, b])
+                addr += 1
+        return addr
+
+    pre_main = fill(st.below(3))
+    call = _t_callf(sub) if far_call else _t_call(sub)
+    post_main = fill(1 + st.below(3))
+    place(main, pre_main + [call] + post_main + [_T_NOP] * 4)
+    sub_body = fill(st.below(3))
+    ret = _T_RETF if far_call else _T_RET
+    shape = st.below(3)
+    if shape == 0:
+        place(sub, sub_body + [ret] + [_T_NOP] * 2)
+        steps = len(pre_main) + 1 + len(sub_body) + 1 + len(post_main)
+    else:
+        jump = _t_jpf(tail) if (shape == 1 or (tail & 0xF0000) != (sub & 0xF0000)) else _t_jp(tail)
+        tail_body = fill(st.below(3))
+        place(sub, sub_body + [jump] + [_T_NOP] * 2)
+        place(tail, tail_body + [ret] + [_T_NOP] * 2)
+        # after a near RET in another page execution continues in that page (not at main): stop after the RET
+        back_at_main = far_call or (tail & 0xF0000) == (main & 0xF0000)
+        steps = len(pre_main) + 1 + len(sub_body) + 1 + len(tail_body) + 1 + (len(post_main) if back_at_main else 0)
+    regs = {"BA": st.word(), "I": st.word(), "X": st.pointer(False)[0], "Y": st.pointer(False)[0],
+            "U": st.pointer(False)[0], "S": 0xE0000 + st.below(0x8000) * 2, "F": st.u32() & 0xFF, "PC": main}
+    return {"regs": regs, "power": "running", "seed": st.u32(), "mem": mem, "steps": steps}
 
 
 def run(ctx: Ctx) -> Report:
@@ -341,6 +434,9 @@ def run(ctx: Ctx) -> Report:
 def replay(ctx: Ctx, case: Dict[str, Any]) -> List[Violation]:
     rsclient.build()
     rep = Report()
+    if int(case.get("steps", 1)) > 1:
+        vs, _ = lockstep(case)
+        return vs
     code = S.code_of(case, 8)
     ln = G.info_len(code + G.NOP_PAD)
     if ln is None:
